@@ -61,6 +61,9 @@ ErrorPointsAtInput ==
      /\ f.err.pos <= Utf8LenOf(inp)
      /\ (f.err.ch = EOF) <=> (f.err.pos = Utf8LenOf(inp))
 
+\* C07: an error is never raised while the text read so far is still a viable prefix
+Viable == st.mode # "err" => IsViable(st)
+
 \* C12: a strict-valid document has the same outcome under every option record
 ConservativeExtension ==
   LET inp == Prefix \o w \o Suffix
